@@ -97,7 +97,7 @@ for d in sorted(glob.glob(f"{OUT}/C*-*")):
         "id": sid, "property": prop, "title": props[prop]["title"],
         "author": "fresh sub-agent given only the property text and a scratch worktree of /repo (nothing from /verif)"
                   + ("; second round: also told the one-line headings of the first-round changes, to avoid repeating them" if OFF == 3 else
-                     "; third round" if OFF == 6 else ""),
+                     "; third round" if OFF == 6 else "; fourth round (tiny slips, 1-6 changed lines)" if OFF == 9 else ""),
         "needs_to_manifest": sec[:3000] or "see demo.py",
         "applies_to": f"/repo at {head} (git -C /repo apply patch.diff)",
         "what_was_run": {
